@@ -461,9 +461,18 @@ func (g *Gen) Project() *Proj {
 			pkgs = append(pkgs, cand)
 		}
 	}
+	// now and then a package ten directories deep: its labels are ~100 characters long, escaped record names ~130
+	deep := ""
+	if r.IntN(5) == 0 {
+		deep = "services/payments/src/main/resources/com/example/payments/adapters/postgresql/migrations/versioned"
+		pkgs = append(pkgs, deep)
+	}
 	for _, pk := range pkgs {
 		f := addFile("pkg:" + pk)
 		tag := strings.ToUpper(strings.ReplaceAll(pk, "/", "_"))
+		if pk == deep && deep != "" {
+			tag = "DEEP"
+		}
 		if tag == "" {
 			tag = "R"
 		}
@@ -543,6 +552,9 @@ func (g *Gen) Project() *Proj {
 	var all []*Tgt
 	for i := 0; i < ntg; i++ {
 		pk := pkgs[r.IntN(len(pkgs))]
+		if deep != "" && i < 2 {
+			pk = deep // at least two targets (and their sources) live in the deep package
+		}
 		f := p.Files["pkg:"+pk]
 		t := &Tgt{Pkg: pk, Name: fmt.Sprintf("t%d", i), Extra: r.IntN(100)}
 		if r.IntN(5) != 0 {
